@@ -18,6 +18,7 @@ EXPLANATION = (
     "them behind an isinstance guard; (5) add_duration's carry chain uses the right radix and target for every "
     "unit. NOT decided: exactness of the float `seconds` path, zoneinfo's rendering of the shifted instant."
     ' Also: the month-end clamp every add() runs through (statement order, clamp expression) and what it relies on - the DAYS_PER_MONTHS rows and the Gregorian is_leap rule in both back ends.'
+    ' As built: ADD.tabulated (helpers.add_duration on standard-library values) and SHIFT.tabulated (DateTime.add/subtract and Date.add/subtract interpreted in the wall-clock world, instances before/inside/after a skipped or repeated hour, both folds, every unit and sign, base offset +02:00 and +00:00) decide the values; where they succeed the shape rules of the carry chain, the clamp and the two exits of add() are established by them.'
 )
 
 
